@@ -55,12 +55,15 @@ def main(seed, ncases, driver, out):
         if err == "unbound":
             failures.append(dict(desc, kind="implementation-raises-UnboundLocalError: neither a solution nor a warning", model=model)); continue
         if err is not None: failures.append(dict(desc, kind="implementation-raises", error=err)); continue
-        if model[0] == "unbound": failures.append(dict(desc, kind="model-says-unbound-but-implementation-answers")); continue
+        if model[0] == "unbound": failures.append(dict(desc, kind="model-says-unbound-but-implementation-answers", correspondence_only=True)); continue
         k = int(model[0])
-        if warned != (model[1] == "true"): failures.append(dict(desc, kind="warning-differs", impl=warned, model=model)); continue
-        if not np.array_equal(x, sols[k]):
+        if warned != (model[1] == "true"): failures.append(dict(desc, kind="warning-differs", correspondence_only=True, impl=warned, model=model))
+        elif not np.array_equal(x, sols[k]):
+            # (the loop control of the model and of the code differ: a finer observable than the property, which only asks for the accuracy or the warning)
             which = [mm for mm, s in sols.items() if np.array_equal(x, s)]
-            failures.append(dict(desc, kind="returned-solution-has-other-number-of-moments", model=k, impl=which)); continue
+            failures.append(dict(desc, kind="returned-solution-has-other-number-of-moments", correspondence_only=True, model=k, impl=which))
+        if not (isinstance(x, np.ndarray) and x.shape == v.shape and np.all(np.isfinite(x))):
+            failures.append(dict(desc, kind="no-finite-solution-returned", got=str(x)[:80])); continue
         true_res = float(np.linalg.norm((e * np.eye(n) - h) @ x - v))
         if not warned and true_res > atol * (1 + 1e-9):
             failures.append(dict(desc, kind="accuracy-not-reached-without-warning", residual=true_res))
